@@ -2,6 +2,7 @@ package main
 
 import (
 	"fmt"
+	"os"
 	"strings"
 	"sync/atomic"
 
@@ -103,6 +104,7 @@ type c03case struct {
 	entry                  string
 	files                  map[string]string
 	lazy                   bool
+	diskName               string // lazy include of a disk-backed case: the name bound in the context
 }
 
 func (c c03case) run(ban bool) (compileErr, execErr error, out string, fetches int, panicked string) {
@@ -131,13 +133,17 @@ func (c c03case) run(ban bool) (compileErr, execErr error, out string, fetches i
 		compileErr = err
 		return
 	}
-	out, execErr = tpl.Execute(c03ctx)
+	ctx := c03ctx
+	if c.diskName != "" {
+		ctx = pongo2.Context{"v": "val", "l": []int{0, 1}, "name": c.diskName}
+	}
+	out, execErr = tpl.Execute(ctx)
 	fetches = len(ml.log)
 	return
 }
 
 func suiteC03Routes(cfg Config, res *Result) {
-	res.Rule = "every registered filter and tag (from the VerifRegistered* hooks, plus a probe filter and a probe tag that count their invocations) as ban target x syntactic routes (26 expression positions / 9 nestings) x file-composition routes (same file, include, nested include, lazy include, extends parent, child block, imported macro, ssi parsed); oracle: with the ban the use fails to compile (lazy include: to execute), the probes never run, an include of a banned 'include' fetches nothing; without the ban, in another set, the same source works; a source not using the name renders the same with and without the ban; non-trivial = all; distinct by (target, route)"
+	res.Rule = "every registered filter and tag (from the VerifRegistered* hooks, plus a probe filter and a probe tag that count their invocations) as ban target x syntactic routes (26 expression positions / 9 nestings) x file-composition routes (same file, include, nested include, lazy include, extends parent, child block, imported macro, ssi parsed; for the probes also with the files present on the real file system under absolute names, so that a sub-template compiled outside its set would be found); oracle: with the ban the use fails to compile (lazy include: to execute), the probes never run, an include of a banned 'include' fetches nothing; without the ban, in another set, the same source works through every route it works in when written directly; a source not using the name renders the same with and without the ban; non-trivial = all; distinct by (target, route)"
 	filters := pongo2.VerifRegisteredFilters()
 	tags := pongo2.VerifRegisteredTags()
 	var cases []c03case
@@ -159,8 +165,8 @@ func suiteC03Routes(cfg Config, res *Result) {
 				if quick && f != "verifprobe" && (fi+ri+gi)%5 != int(cfg.Seed)%5 && gi != 0 {
 					continue
 				}
-				if fr.name == "child-block" && strings.Contains(use, "{% block") {
-					continue
+				if (fr.name == "child-block" || fr.name == "import") && strings.Contains(use, "{% block") {
+					continue // a block inside a block / inside an imported macro is not a valid use to begin with
 				}
 				cases = append(cases, mk("filter", f, use, fmt.Sprintf("expr%d", ri), fr))
 			}
@@ -180,7 +186,7 @@ func suiteC03Routes(cfg Config, res *Result) {
 				if quick && t != "verifprobetag" && (ti+ni+gi)%4 != int(cfg.Seed)%4 && gi != 0 {
 					continue
 				}
-				if (t == "block" || strings.Contains(use, "{% block")) && (fr.name == "child-block" || strings.Contains(nest, "macro")) {
+				if (t == "block" || strings.Contains(use, "{% block")) && (fr.name == "child-block" || fr.name == "import" || strings.Contains(nest, "macro")) {
 					continue
 				}
 				cases = append(cases, mk("tag", t, use, fmt.Sprintf("nest%d", ni), fr))
@@ -195,8 +201,39 @@ func suiteC03Routes(cfg Config, res *Result) {
 			}
 		}
 	}
+	// disk-backed variants: the same files also exist on the real file system under absolute
+	// names, so a sub-template compiled outside the set (by the default set's file-system loader)
+	// would be found there — and would escape the set's bans
+	dir, derr := os.MkdirTemp("", "verif-c03-")
+	if derr == nil {
+		defer os.RemoveAll(dir)
+		var disk []c03case
+		for _, c := range cases {
+			if strings.HasSuffix(c.route, "/same") || (c.name != "verifprobe" && c.name != "verifprobetag" && c.name != "upper" && c.name != "if") {
+				continue
+			}
+			d := c
+			d.route += "+disk"
+			d.files = map[string]string{}
+			repl := func(x string) string {
+				for name := range c.files {
+					x = strings.ReplaceAll(x, `"`+name+`"`, `"`+dir+"/"+name+`"`)
+				}
+				return x
+			}
+			for name, body := range c.files {
+				d.files[dir+"/"+name] = repl(body)
+				os.WriteFile(dir+"/"+name, []byte(repl(body)), 0o644)
+			}
+			d.entry = repl(c.entry)
+			d.diskName = dir + "/inc.tpl"
+			disk = append(disk, d)
+		}
+		cases = append(cases, disk...)
+	}
 	res.Cases = len(cases)
 	res.DistinctNontrivial = len(cases)
+	sameOK := map[string]bool{}
 	for i, c := range cases {
 		if i < 3 {
 			res.sample(fmt.Sprintf("ban %s %s; %s: %q", c.kind, c.name, c.route, c.entry))
@@ -204,8 +241,18 @@ func suiteC03Routes(cfg Config, res *Result) {
 		res.hist(c.kind + ":" + strings.Split(c.route, "/")[1])
 		// control: another set without the ban
 		cerr, xerr, outFree, _, pan := c.run(false)
+		useKey := c.kind + "\x00" + c.name + "\x00" + c.use
+		if strings.HasSuffix(c.route, "/same") {
+			sameOK[useKey] = pan == "" && cerr == nil && xerr == nil
+		}
 		if pan != "" || cerr != nil || xerr != nil {
 			res.hist("control-invalid")
+			if sameOK[useKey] {
+				// valid where written directly, broken when reached through this route without any ban:
+				// the sub-template is not compiled like the template that names it
+				res.add(Finding{Kind: "oracle", Proj: "ban", Sig: "c03-route-broken-without-ban", Case: fmt.Sprintf("no ban; %s %q; route %s; entry %q; files %v", c.kind, c.name, c.route, c.entry, c.files),
+					Impl: fmt.Sprint(cerr, xerr, pan), Model: "renders like the same source written directly"})
+			}
 			continue // the use itself is invalid (e.g. a filter that needs a parameter): not a ban question
 		}
 		f0, p0, r0 := atomic.LoadInt64(&probeFilterRuns), atomic.LoadInt64(&probeTagParses), atomic.LoadInt64(&probeTagRuns)
